@@ -439,7 +439,7 @@ func sameMultiset(a, b Paths) string {
 
 func init() {
 	defProp("C09",
-		"rapid-generated open subject polylines (1-3 lines of 2-8 points; vertices on clip vertices / edge midpoints, horizontal segments, points of the same family as the closed paths) x closed clip paths (and optional closed subjects) of C01's families x {Intersection, Difference, Union} x 4 fill rules x {Clipper64, ClipperD precision 2}; oracle: sample points of subject segments farther than 5 units from every closed input edge and every other open segment are within 2 units of the open solution exactly when inside clip (Intersection) / outside clip (Difference) / outside both closed regions (Union) by exact winding; every open solution path is a sub-polyline of a subject (1.5 units, either direction); the closed solution equals the closed solution without open paths; the PolyTree form holds exactly the closed paths; non-trivial = a subject segment properly crosses a clip edge and covered as well as uncovered samples were judged",
+		"rapid-generated open subject polylines (1-3 lines of 2-8 points; vertices on clip vertices / edge midpoints, horizontal segments, points of the same family as the closed paths) x closed clip paths (and optional closed subjects) of C01's families x {Intersection, Difference, Union} x 4 fill rules x {Clipper64 with the open subjects added by AddPaths or one by one by AddPath, ClipperD precision 2}; oracle: sample points of subject segments farther than 5 units from every closed input edge and every other open segment are within 2 units of the open solution exactly when inside clip (Intersection) / outside clip (Difference) / outside both closed regions (Union) by exact winding; every open solution path is a sub-polyline of a subject (1.5 units, either direction); the closed solution equals the closed solution without open paths; the PolyTree form (64-bit and D) holds exactly the closed paths and hands back the same open solution; non-trivial = a subject segment properly crosses a clip edge and covered as well as uncovered samples were judged",
 		[]string{"sample points nearer than 5 units to closed edges or other open segments are not judged (sound subset of the statement's 2 units)"},
 		drawC09, judgeC09)
 }
